@@ -1,6 +1,6 @@
 (* C10 - theorems only.  See DESIGN.md section 6, C10.
    Model: coq/Sys/Lockset.v; regenerated data: coq/Generated/Effects.v (harness/effsum). *)
-From Coq Require Import List String Bool.
+From Coq Require Import List String Bool Arith.
 From Sdfx Require Import Sys.Lockset Generated.Effects Sys.EffectsC10.
 Import ListNotations.
 
@@ -83,16 +83,5 @@ Proof. split; [exact thread_of_conforms_example | exact summaries_not_empty]. Qe
 (* non-vacuity of the cache theorem: a caller can run through a whole call *)
 Example C10_cache_run :
   exists s, creach nat nat Nat.eq_dec (fun p => p + 1) (cinit nat nat (fun i => if Nat.eqb i 0 then [7] else [])) s /\
-            c_log nat nat s = [(0, 7, 8)] /\ c_owner nat nat s = None.
-Proof.
-  eexists. split.
-  - eapply creach_step. 2: eapply cs_unlock with (i := 0); reflexivity.
-    eapply creach_step. 2: eapply cs_store with (i := 0); reflexivity.
-    eapply creach_step. 2: eapply cs_child with (i := 0); reflexivity.
-    eapply creach_step. 2: eapply cs_lookup with (i := 0); reflexivity.
-    eapply creach_step. 2: eapply cs_st_reads with (i := 0); reflexivity.
-    eapply creach_step. 2: eapply cs_ld_reads with (i := 0); reflexivity.
-    eapply creach_step. 2: eapply cs_lock with (i := 0); reflexivity.
-    apply creach_refl.
-  - split; reflexivity.
-Qed.
+            c_log nat nat s = [(0, 7, 8)] /\ c_owner nat nat s = None /\ c_reads nat nat s = 1 /\ c_hits nat nat s = 0.
+Proof. exact cache_run_example. Qed.
